@@ -231,6 +231,11 @@ type RollbackSpec struct {
 	// freed again in the same transaction; only the last page is written to
 	// extend the file). They exist as zero-filled holes.
 	UnwrittenNew uint32 `json:"unwritten_new,omitempty"`
+	// DirtyCut > 0 (shrinking transactions): that many of the pages the transaction
+	// is going to cut off are first modified and written out by a cache spill (a row
+	// updated on a tail page, then deleted and vacuumed away in the same
+	// transaction). Their journal records are what a rollback restores them from.
+	DirtyCut     uint32 `json:"dirty_cut,omitempty"`
 	NRec         string `json:"nrec,omitempty"`       // "" (synced count) | "nosync" (0xFFFFFFFF, single segment)
 	Outcome      string `json:"outcome"`              // commit | rollback | lockonly
 	Mode         string `json:"mode"`                 // delete | truncate | persist
@@ -367,6 +372,7 @@ func (c *Conn) RunRollbackTx(spec RollbackSpec) (res TxResult) {
 	exclusive := false
 	pending := []uint32{} // modified in cache, not yet written to the database file
 	journaled := map[uint32]bool{}
+	cutDirty := map[uint32][]byte{} // see RollbackSpec.DirtyCut
 
 	syncJournal := func(newHdr bool) error {
 		if !exclusive {
@@ -447,7 +453,11 @@ func (c *Conn) RunRollbackTx(spec RollbackSpec) (res TxResult) {
 			if err := d.step(fmt.Sprintf("db write page %d", p)); err != nil {
 				return err
 			}
-			if err := c.dbf.WriteAt(c.Owner, nm.Page(p), int64(p-1)*int64(d.PageSize)); err != nil {
+			data := nm.Page(p)
+			if cd, isCut := cutDirty[p]; isCut {
+				data = cd
+			}
+			if err := c.dbf.WriteAt(c.Owner, data, int64(p-1)*int64(d.PageSize)); err != nil {
 				return err
 			}
 		}
@@ -458,6 +468,14 @@ func (c *Conn) RunRollbackTx(spec RollbackSpec) (res TxResult) {
 	// Pages being cut off by a shrink are journalled too (SQLite does this so a
 	// rollback can restore them).
 	var touch []uint32
+	if spec.DirtyCut > 0 && spec.NewPageN < origPages {
+		for p := spec.NewPageN + 1; p <= origPages && uint32(len(cutDirty)) < spec.DirtyCut; p++ {
+			if p != lock {
+				cutDirty[p] = d.RandPage()
+				touch = append(touch, p) // modified early: journalled and spilled first
+			}
+		}
+	}
 	touch = append(touch, order...)
 	if spec.NewPageN < origPages {
 		for p := spec.NewPageN + 1; p <= origPages; p++ {
@@ -487,7 +505,7 @@ func (c *Conn) RunRollbackTx(spec RollbackSpec) (res TxResult) {
 			segRecs++
 			journaled[p] = true
 		}
-		if p <= spec.NewPageN {
+		if _, isCut := cutDirty[p]; p <= spec.NewPageN || isCut {
 			pending = append(pending, p)
 			modified++
 			if spec.SpillAfter > 0 && modified%spec.SpillAfter == 0 && (spec.MultiSpill || modified == spec.SpillAfter) && spec.NRec != "nosync" {
